@@ -245,10 +245,14 @@ impl std::io::Write for NonBlocking {
     fn write(&mut self, buf: &[u8]) -> io::Result<usize> {
         let buf_size = buf.len();
         if self.is_lossy {
+            #[cfg(feature = "verif-hooks")]
+            tracing_subscriber::__verif::point("appender.try_send");
             if self.channel.try_send(Msg::Line(buf.to_vec())).is_err() {
                 self.error_counter.incr_saturating();
             }
         } else {
+            #[cfg(feature = "verif-hooks")]
+            tracing_subscriber::__verif::wait_until("appender.send", &|| !self.channel.is_full());
             return match self.channel.send(Msg::Line(buf.to_vec())) {
                 Ok(_) => Ok(buf_size),
                 Err(_) => Err(io::Error::from(io::ErrorKind::Other)),
@@ -288,6 +292,8 @@ impl WorkerGuard {
 impl Drop for WorkerGuard {
     fn drop(&mut self) {
         let timeout = Duration::from_millis(100);
+        #[cfg(feature = "verif-hooks")]
+        tracing_subscriber::__verif::wait_until("appender.guard.send_shutdown", &|| !self.sender.is_full());
         match self.sender.send_timeout(Msg::Shutdown, timeout) {
             Ok(_) => {
                 // Attempt to wait for `Worker` to flush all messages before dropping. This happens
@@ -295,6 +301,10 @@ impl Drop for WorkerGuard {
                 // so that drop is not blocked indefinitely.
                 // TODO: Make timeout configurable.
                 let timeout = Duration::from_millis(1000);
+                #[cfg(feature = "verif-hooks")]
+                tracing_subscriber::__verif::wait_until("appender.guard.rendezvous", &|| {
+                    crate::worker::VERIF_AT_SHUTDOWN_RECV.load(Ordering::SeqCst) > 0
+                });
                 match self.shutdown.send_timeout((), timeout) {
                     Err(SendTimeoutError::Timeout(_)) => {
                         eprintln!(
